@@ -35,7 +35,7 @@ type c15Model struct {
 	files []*descriptorpb.FileDescriptorProto
 	types gen.TypeResolver
 	w     *world
-	src   map[string]string     // canonical sources
+	src   map[string]string      // canonical sources
 	lfs   map[string]linker.File // baseline compile
 }
 
@@ -283,6 +283,17 @@ func siteValues(model, got *descriptorpb.FileDescriptorProto, k siteKey) (vals [
 
 func isResolutionFailure(errs string) bool { return isResolutionErr(errs) }
 
+// resolutionErrClass is the stable shape of a resolution error message.
+func resolutionErrClass(errs string) string {
+	for _, s := range []string{"which is not defined", "invalid type:", "unknown type", "extendee is invalid", "unknown extendee", "invalid extension:", "unknown extension",
+		"invalid request type", "unknown request type", "invalid response type", "unknown response type", "may not be referenced explicitly", "not in valid range"} {
+		if strings.Contains(errs, s) {
+			return strings.TrimSuffix(s, ":")
+		}
+	}
+	return "other error: " + gen.ClassifyErr(errs)
+}
+
 func TestC15(t *testing.T) {
 	r := vlib.Start(t, "C15")
 	defer r.Finish()
@@ -303,6 +314,14 @@ func TestC15(t *testing.T) {
 		recordCalibration(r, rep)
 		r.ClassN("calibration: R3 cases reproduced", int64(len(rep.R3Reproduced)))
 		r.ClassN("calibration: R1/R2 sites equal to protoc", int64(rep.R12Sites))
+	}
+
+	if r.Mine(0) {
+		for _, c := range c15FixedCases {
+			if r.Want(c.id) {
+				runC15Source(r, c)
+			}
+		}
 	}
 
 	nScope := r.N(160, 3000)
@@ -338,7 +357,10 @@ func TestC15(t *testing.T) {
 		}
 		m, why := newC15Model(files, types)
 		if m == nil {
-			r.Class("model skipped: " + why)
+			r.Class("model skipped: " + strings.SplitN(why, ":", 2)[0])
+			if strings.HasPrefix(why, "baseline rejected") {
+				r.Class("model skipped, baseline rejected: " + resolutionErrClass(why))
+			}
 			return
 		}
 		r.Class("models explored")
@@ -428,8 +450,16 @@ func runC15Spelling(r *vlib.Run, m *c15Model, cid string, fd *descriptorpb.FileD
 		extra["compile_errors"] = out.ErrSummary()
 		return extra
 	}
+	sigBase := k.siteClass() + "; reference rules: " + sigTags(exp.Tags)
 	if out.Panic != nil {
-		r.Violation("compile.panic", "panic resolving a "+k.siteClass()+" reference", cid, wit(map[string]any{"panic": fmt.Sprint(out.Panic)}))
+		// A crash of the compiler is not a statement about name resolution; it is
+		// recorded (class + one sample) and reported as a by-product finding.
+		site := vlib.PanicSite(fmt.Sprint(out.Panic))
+		r.Class("by-product: compiler panic at " + site + " (expected by the reference: " + exp.What + ")")
+		r.Sample("by-product panic at "+site, wit(map[string]any{"panic": trunc(fmt.Sprint(out.Panic), 1500)}))
+		if exp.What == expResolves && exp.To == k.Target {
+			r.Violation("c15.fails-where-protoc-resolves", sigBase+"; here: panic at "+site, cid, wit(map[string]any{"panic": fmt.Sprint(out.Panic)}))
+		}
 		return
 	}
 	// observation
@@ -451,12 +481,11 @@ func runC15Spelling(r *vlib.Run, m *c15Model, cid string, fd *descriptorpb.FileD
 		r.Class(fmt.Sprintf("undecided (%s) | %s | %s | observed: %s", exp.Why, k.siteClass(), shape, obs))
 		return
 	}
-	sigBase := k.siteClass() + ", " + shape + " spelling; reference rules: " + exp.Tags
 	switch exp.What {
 	case expFail:
 		r.Class("decided: must fail (" + strings.SplitN(exp.Why, ":", 2)[0] + ") | " + k.siteClass())
 		if out.OK() {
-			r.Violation("c15.resolves-where-protoc-fails", sigBase+"; protoc: "+exp.Why+"; here: "+obs, cid, wit(map[string]any{}))
+			r.Violation("c15.resolves-where-protoc-fails", sigBase+"; protoc: "+strings.SplitN(exp.Why, ":", 2)[0]+"; here: "+obs, cid, wit(map[string]any{}))
 		} else if !isResolutionFailure(out.ErrSummary()) {
 			r.Class("must-fail spelling rejected with a non-resolution message (observed)")
 		}
@@ -465,7 +494,7 @@ func runC15Spelling(r *vlib.Run, m *c15Model, cid string, fd *descriptorpb.FileD
 			r.Class("decided: resolves to the model's target | " + k.siteClass())
 			switch {
 			case !out.OK():
-				r.Violation("c15.fails-where-protoc-resolves", sigBase+"; here: "+gen.ClassifyErr(out.ErrSummary()), cid, wit(map[string]any{}))
+				r.Violation("c15.fails-where-protoc-resolves", sigBase+"; here: "+resolutionErrClass(out.ErrSummary()), cid, wit(map[string]any{}))
 			case obs != "accepted, equal to model":
 				d, _ := gen.CompareNormalized(got, fd, m.types)
 				r.Violation("c15.resolves-differently", sigBase+"; expected the model's target, descriptor differs at "+gen.DiffClass(d), cid, wit(map[string]any{"diff": d}))
@@ -475,7 +504,7 @@ func runC15Spelling(r *vlib.Run, m *c15Model, cid string, fd *descriptorpb.FileD
 		r.Class("decided: resolves to ANOTHER element | " + k.siteClass())
 		switch {
 		case !out.OK() && isResolutionFailure(out.ErrSummary()):
-			r.Violation("c15.fails-where-protoc-resolves", sigBase+"; protoc resolves to another element of acceptable kind; here: "+gen.ClassifyErr(out.ErrSummary()), cid, wit(map[string]any{"expected_target": exp.To}))
+			r.Violation("c15.fails-where-protoc-resolves", sigBase+"; here: "+resolutionErrClass(out.ErrSummary()), cid, wit(map[string]any{"expected_target": exp.To}))
 		case !out.OK():
 			r.Class("other-element spelling rejected downstream of resolution (observed)")
 		case obs == "accepted, equal to model":
@@ -496,6 +525,30 @@ func runC15Spelling(r *vlib.Run, m *c15Model, cid string, fd *descriptorpb.FileD
 			}
 		}
 	}
+}
+
+// sigTags keeps the rule tags that say WHY the reference answers as it does
+// (skips, first-component matches, missing remainder), not where it ended.
+func sigTags(tags string) string {
+	var out []string
+	for _, t := range strings.Split(tags, ",") {
+		switch t {
+		case "simple", "compound", "root", "leading-dot", "":
+			continue
+		}
+		out = append(out, t)
+	}
+	if len(out) == 0 {
+		return "plain lookup"
+	}
+	return strings.Join(out, ",")
+}
+
+func trunc(s string, n int) string {
+	if len(s) > n {
+		return s[:n] + "…"
+	}
+	return s
 }
 
 var _ = sort.Strings
